@@ -548,6 +548,63 @@ def echo_blocking_cases(ctx, hook):
     return n
 
 
+def bystander_cases(ctx, hook):
+    """While one caller waits in a blocking receive() (or iterates), another looks at the same empty port - poll(),
+    iter_pending(), receive(block=False), repr() - and gets nothing, as it should.  The waiting call goes on waiting: it
+    returns the message that arrives later, not None, and within two pauses of its arrival."""
+    n = 0
+    looks = {'poll': lambda p: p.poll(), 'iter_pending': lambda p: list(p.iter_pending()), 'receive-nb': lambda p: p.receive(block=False),
+             'repr': lambda p: repr(p), 'poll-x3': lambda p: [p.poll() for _ in range(3)]}
+    for kind in ('device', 'echo', 'multi', 'ioport'):
+        for look_name, look in looks.items():
+            for look_at, arrive_at in ((1, 3), (2, 3), (1, 2), (3, 40)):
+                for how in ('receive', 'iterate'):
+                    if kind == 'echo' and how == 'iterate':
+                        continue              # an EchoPort iterates over what is pending, without waiting
+                    case = {'kind': 'bystander', 'port': kind, 'look': look_name, 'look_at_sleep': look_at, 'arrival_at_sleep': arrive_at,
+                            'how': how}
+                    log = []
+                    if kind == 'device':
+                        port = RecordingPort('r', log=log)
+                        arrive = lambda: port.dev.append(dev_msg(1))  # noqa: E731
+                    elif kind == 'echo':
+                        port = RecEcho('e', log=log)
+                        arrive = lambda: port.send(dev_msg(1))  # noqa: E731
+                    elif kind == 'multi':
+                        member = EchoPort('m')
+                        port = MultiPort([member])
+                        arrive = lambda: member.send(dev_msg(1))  # noqa: E731
+                    else:
+                        inner = RecordingPort('r', log=log)
+                        port = IOPort(inner, EchoPort('o'))
+                        arrive = lambda: inner.dev.append(dev_msg(1))  # noqa: E731
+                    seen = []
+
+                    def event():
+                        if hook.n == look_at:
+                            seen.append(look(port))
+                        if hook.n == arrive_at:
+                            arrive()
+                    hook.arm({look_at: 'arrive', arrive_at: 'arrive'}, event, None, limit=arrive_at + 50)
+                    try:
+                        if how == 'receive':
+                            m = port.receive()
+                        else:
+                            m = next(iter(port), 'ITERATION ENDED')
+                        ctx.check('results == lifecycle model', m is not None and not isinstance(m, str) and tag_of(m) == ('d', 1),
+                                  'bystander:waiting-call-gave-up', case, repr(m))
+                        ctx.check('blocking call bounded sleeps', hook.n <= arrive_at + 2, 'bystander:sleeps', case, hook.n)
+                        empty = seen and seen[0] in (None, [], [None, None, None]) or look_name == 'repr'
+                        ctx.check('results == lifecycle model', bool(empty), 'bystander:look-saw-something', case, repr(seen)[:80])
+                    except HarnessAbort as exc:
+                        ctx.check('blocking call bounded sleeps', False, 'bystander:never-returns', case, str(exc))
+                    except Exception as exc:
+                        ctx.fail('results == lifecycle model', f'bystander:{type(exc).__name__}', case, f'{type(exc).__name__}: {exc}')
+                    port.closed = True
+                    n += 1
+    return n
+
+
 def long_idle_cases(ctx, hook):
     """A blocking receive that has been polling an idle port for thousands of rounds returns as
     promptly as a fresh one: within 2 further sleep() calls and without any other waiting."""
@@ -736,6 +793,74 @@ def selfclosing_on_send_cases(ctx, hook):
                                   and (via != 'send-then-close' or raised == [good]), 'selfclosing-send:after', case,
                                   {'left': repr(left), 'send_after_close': after, 'raised': repr(raised)})
                     n += 1
+    return n
+
+
+def socket_partial_tail_cases(ctx, hook):
+    """A connection that ends - the peer hangs up, or the port is closed by its owner - while a message is half way in and
+    complete ones have been taken in but not handed out yet: poll, non-blocking receive, iter_pending and iteration hand out
+    every complete one, then stop; the half message is never seen."""
+    import socket
+    import time
+    from mido.sockets import SocketPort
+    n = 0
+    complete = [out_msg(1), out_msg(2), out_msg(3)]
+    tails = {'channel-1-of-3': [0x93, ], 'channel-2-of-3': [0x93, 5], 'sysex-open': [0xF0, 1, 2, 3], 'songpos-2-of-3': [0xF2, 1],
+             'none': []}
+    for tail_name, tail in tails.items():
+        for ending in ('peer-closes', 'own-close-after-first', 'own-with-block'):
+            for drain in ('poll', 'receive-nb', 'iter_pending', 'iterate'):
+                case = {'kind': 'socket-partial-tail', 'tail': tail_name, 'ending': ending, 'drain': drain}
+                a = b = port = None
+                hook.arm({}, None, None)
+                try:
+                    a, b = socket.socketpair()
+                    port = SocketPort('peer', 1, conn=a)
+                    data = bytes(x for m in complete for x in m.bytes()) + bytes(tail)
+                    b.sendall(data)
+                    got = []
+                    if ending == 'peer-closes':
+                        b.close()
+                        b = None
+                        time.sleep(0.01)
+                    else:
+                        time.sleep(0.01)
+                        if ending == 'own-close-after-first':
+                            got.append(tag_of(port.poll()))       # takes in everything that has arrived, hands out the first
+                            port.close()
+                        else:
+                            with port:
+                                got.append(tag_of(port.poll()))
+                    if drain == 'poll':
+                        for _ in range(6):
+                            m = port.poll()
+                            if m is not None:
+                                got.append(tag_of(m))
+                    elif drain == 'receive-nb':
+                        for _ in range(6):
+                            m = port.receive(block=False)
+                            if m is not None:
+                                got.append(tag_of(m))
+                    elif drain == 'iter_pending':
+                        got += [tag_of(m) for m in port.iter_pending()]
+                        got += [tag_of(m) for m in port.iter_pending()]
+                    else:
+                        got += [tag_of(m) for m in port]
+                    ctx.check('results == lifecycle model', got == [('o', 1), ('o', 2), ('o', 3)], 'socket:taken-in-messages-lost-at-close', case,
+                              {'got': repr(got)})
+                    ctx.check('closed flag == model', port.closed is True, 'socket:not-closed-after-end', case, port.closed)
+                except HarnessAbort as exc:
+                    ctx.check('blocking call bounded sleeps', False, 'socket-partial-tail:never-returns', case, str(exc))
+                except Exception as exc:
+                    ctx.fail('results == lifecycle model', f'socket-partial-tail:{type(exc).__name__}', case, f'{type(exc).__name__}: {exc}')
+                finally:
+                    for x in (port, b):
+                        try:
+                            if x is not None:
+                                x.close()
+                        except Exception:
+                            pass
+                n += 1
     return n
 
 
@@ -1670,6 +1795,16 @@ def run(ctx):
             k = long_idle_cases(ctx, hook)
             ctx.nontrivial(None, k)
             n += k
+        if ctx.shard == 7 % ctx.nshards:
+            k = socket_partial_tail_cases(ctx, hook)
+            ctx.nontrivial(None, k)
+            ctx.extra('socket_partial_tail_cases', k)
+            n += k
+        if ctx.shard == 6 % ctx.nshards:
+            k = bystander_cases(ctx, hook)
+            ctx.nontrivial(None, k)
+            ctx.extra('bystander_cases', k)
+            n += k
         if ctx.shard == 5 % ctx.nshards:
             k = socket_two_thread_cases(ctx, orig)
             ctx.nontrivial(None, k)
@@ -1736,6 +1871,10 @@ def replay(ctx, case):
         elif k == 'long-idle':
             mido.ports.time = TimeShim(hook, mido.ports.time)
             long_idle_cases(ctx, hook)
+        elif k == 'bystander':
+            bystander_cases(ctx, hook)
+        elif k == 'socket-partial-tail':
+            socket_partial_tail_cases(ctx, hook)
         elif k == 'socket-lifecycle':
             socket_lifecycle_cases(ctx, hook)
         elif k == 'multi-selfclose':
